@@ -492,9 +492,44 @@ class World:
             return box["ret"]
         return self._op_call(op)
 
+    def arm_nested(self, nested: dict[str, Any] | None) -> None:
+        """A property's (de)serialization hook that itself makes a complete library call with its OWN options while
+        the outer call is in progress (e.g. a custom type embedding another document): the inner call's options are
+        the inner call's, the outer call's are the outer call's, before and after."""
+        self.nested_viol = None
+        if not nested:
+            return
+
+        def inner() -> None:
+            try:
+                data = call_ser(self.probe, nested["m"], nested["opts"])
+                j = Judge(self, nested["opts"], ordered=(nested["m"] != "to_yaml"), dialect_applies=nested["m"] in ("as_dict", "to_yaml"))
+                j.any(self.probe, to_doc(data, nested["m"]))
+                self.stats.probes["nested_call_judged"] += 1
+            except Violation as v:
+                v.sig = v.sig + ":nested-inner"
+                self.nested_viol = v
+            except Exception as e:  # noqa: BLE001
+                self.nested_viol = self.viol("C16.0 call-raised", f"C16.0:nested:{type(e).__name__}", f"a nested {nested['m']} call with options {sorted(nested['opts'])} raised {type(e).__name__}: {e}")
+
+        FAULTS.arm_action(nested["site"], nested["k"], inner)
+
     def _op_call(self, op: dict[str, Any]) -> str:
         m, opts = op["m"], op.get("opts", [])
         flt = op.get("fault")
+        outcome = "ok"
+        self.arm_nested(op.get("nested"))
+        try:
+            outcome = self._op_call2(op, m, opts, flt)
+        except Violation as v:
+            if op.get("nested"):
+                v.sig = v.sig + ":nested-outer"
+            raise
+        if self.nested_viol is not None:
+            raise self.nested_viol
+        return outcome
+
+    def _op_call2(self, op: dict[str, Any], m: str, opts: list[str], flt: Any) -> str:
         outcome = "ok"
         if m in SER:
             o = self.target(op["t"])
@@ -638,6 +673,13 @@ class Gen:
                     do({"op": "detach", "t": t})
                 entry = r.choice(["ASTNode", "cls"])
                 do({"op": "call", "m": m, "p": p, "opts": opts, "out": f"r{ci}", "entry": entry})
+                if w.cfg.get("nested") and w.last_hits.get("tok_deser", 0) > 0 and r.random() < 0.6:
+                    if t in w.handles:
+                        do({"op": "detach", "t": t})
+                    if f"r{ci}" in w.handles and w.kinds.get(f"r{ci}") == "node":
+                        do({"op": "detach", "t": f"r{ci}"})
+                    nm = r.choice(SER)
+                    do({"op": "call", "m": m, "p": p, "opts": opts, "entry": entry, "nested": {"site": "tok_deser", "k": r.randint(1, w.last_hits["tok_deser"]), "m": nm, "opts": self.opts(nm)}})
                 if w.cfg["faults"] and budget > 0:
                     doc = to_doc(w.handles[p], m)
                     nmaps = len(node_maps(doc, []))
@@ -671,6 +713,9 @@ class Gen:
                 do({"op": "call", "m": m, "t": t, "opts": opts, "out": out})
                 if out and out in w.handles:
                     payloads.append(out)
+                if w.cfg.get("nested") and t in trees and w.last_hits.get("tok_ser", 0) > 0 and r.random() < 0.6:
+                    nm = r.choice(SER)
+                    do({"op": "call", "m": m, "t": t, "opts": opts, "nested": {"site": "tok_ser", "k": r.randint(1, w.last_hits["tok_ser"]), "m": nm, "opts": self.opts(nm)}})
                 if w.cfg["faults"] and budget > 0 and t in trees:
                     n = w.last_hits.get("tok_ser", 0)
                     ks = list(range(1, n + 1))
@@ -698,6 +743,7 @@ def make_config(rseed: int, prop: str, tier: str, faults: bool) -> dict[str, Any
         "fault_budget": 64 if tier == "thorough" else r.choice([12, 24, 64]),
         "threads": r.random() < 0.3,
         "shared_opts": r.random() < 0.5,
+        "nested": r.random() < 0.4,
         "build": {
             "maxd": r.choice([2, 3]),
             "maxw": r.choice([2, 3, 4]),
